@@ -60,7 +60,7 @@ for _t in TYPES:
                              f"{_t}.func_calc_proj_{_w}_constraint():flag=True:nearest",
                              f"{_t}.func_calc_proj_{_w}_constraint_with_var():flag=False:nearest",
                              f"{_t}.{_w}:flag=True:forms-agree", f"{_t}.{_w}:flag=False:forms-agree"]
-MIN_EVALS = {"quick": 5000, "thorough": 50000}
+MIN_EVALS = {"quick": 50000, "thorough": 500000}
 WATCHDOG = {"quick": 900, "thorough": 3600}
 ASSUMPTIONS = [
     "matrix bases used are orthonormal, Hermitian and identity-first (verified numerically per shard): the Euclidean norm "
@@ -88,7 +88,10 @@ def shards(tier, seed):
                 k = n if cost <= 8 else max(5, n * 8 // cost)
                 if b == "mix":
                     k = max(5, k // 2)
-                out.append({"type": t, "shape": shape, "basis": b, "n": int(k), "weight": cost * k})
+                parts = 2 if cost * k >= 200 else 1  # heavy configurations are split (own RNG streams per shard)
+                for part in range(parts):
+                    kk = (k + parts - 1 - part) // parts
+                    out.append({"type": t, "shape": shape, "basis": b, "part": part, "n": int(kk), "weight": cost * kk})
     return out
 
 
@@ -766,7 +769,7 @@ def run_shard(ctx):
             kind = str(rng.choice(KINDS))
             s = float(rng.choice(SCALES)) if kind in ("gauss", "deg", "eqfeas", "ineqfeas") else 1.0
             J.begin_case(s)
-            eps = 1e-9 if (s == 1e3 and rng.random() < 0.6) else None
+            eps = 1e-10 if (s == 1e3 and rng.random() < 0.6) else None
             a = np.ascontiguousarray(make_input(spec, kind, s, rng), dtype=np.float64)
             if kind != "feasible":
                 ctx.nontrivial(T, shape, bkind, kind, s, m, a)
